@@ -11,6 +11,8 @@ pub mod pure;
 pub mod drive;
 #[cfg(feature = "full")]
 pub mod probe;
+#[cfg(feature = "full")]
+pub mod fault;
 
 
 /// SplitMix64. Every random choice in the harness comes from one of these, seeded from VERIF_SEED.
